@@ -275,6 +275,27 @@ def check_header_tables(ctx, facts):
             if rv["k"] == "bin" and rv["op"] in ("AddWithOverflow", "Add"):
                 e = expr(b, {"k": "copy", "place": {"l": st["place"]["l"], "p": [{"f": 0, "o": "(tuple)"}]}}) if rv["op"].endswith("WithOverflow") else expr(b, {"k": "copy", "place": st["place"]})
                 sh = show(strip_refs(e))
+                # the size may also be taken from the payload buffer itself: `PREFIX + payload.len()` where `payload` is
+                # the vector handed out as Entry.data (its length is the read_size it was allocated with)
+                if sh.startswith("Add(") and not re.search(r"read_size", sh):
+                    for side, other in ((e[1], e[2]), (e[2], e[1])):
+                        sd_ = strip_refs(side)
+                        if isinstance(sd_, tuple) and sd_ and sd_[0] == "len" and fmtfeat.const_eval(strip_refs(other)) is not None:
+                            # which local is measured?
+                            for cs_ in b.calls(re.compile(r"Vec.*::len$|::len$")):
+                                if show(strip_refs(expr(b, {"k": "copy", "place": cs_.node["dest"]}))) != show(sd_):
+                                    continue
+                                pl_ = borrowed_local(b, cs_.node["args"][0])
+                                is_data = any(st2["rv"]["k"] == "agg" and str(st2["rv"].get("name", "")).endswith("block::Entry") and any(op_local(b.resolve_copy(o_)) == pl_ or op_local(o_) == pl_ for o_ in st2["rv"]["ops"])
+                                              for s2, st2 in b.assigns())
+                                if is_data and pl_ is not None:
+                                    n_stride += 1
+                                    per_fn[F] += 1
+                                    if fmtfeat.const_eval(strip_refs(other)) == prefix:
+                                        ctx.ok("C01.2", F, "entry stride = PREFIX_META_SIZE + len(the payload handed out)", b.relfile, st["line"])
+                                    else:
+                                        ctx.violate("C01.2", F, "entry-stride", b.relfile, st["line"], "entry stride is %s + len(payload), encoders write PREFIX_META_SIZE (%d) + len(data)" % (fmtfeat.const_eval(strip_refs(other)), prefix))
+                                break
                 if re.search(r"read_size", sh) and sh.startswith("Add("):
                     a, c = strip_refs(e[1]), strip_refs(e[2])
                     ka, kc = fmtfeat.const_eval(a), fmtfeat.const_eval(c)
